@@ -2340,7 +2340,11 @@ def r8_19(rep):
                 for arm in m["arms"]:
                     if any(v.endswith("TypeKind::Array") for v in pat_variants(arm["pat"])):
                         arms.append(arm)
-        rep.need(arms, "%s::constrain: the TypeKind::Array arm" % a.name)
+        if not arms:
+            n += 1
+            rep.bad("array-forwards-element:%s" % a.name, "%s::constrain has no arm for `TypeKind::Array`: arrays fall into the catch-all and what "
+                    "is known about the element is lost for the array (and for every struct that holds it)" % a.name, b.loc(b.root))
+            continue
         for arm in arms:
             n += 1
             reads = []
